@@ -114,7 +114,7 @@ def correspond(ctx):
                            ((0.0, 0.0), 1e5)):
                 for iface in ('class', 'func'):
                     okind = orders[int(rng.integers(0, 3))] if iface == 'class' else ['rotated', 'shuffled'][int(rng.integers(0, 2))]
-                    if not ctx.thorough and rng.random() < 0.5:
+                    if not ctx.thorough and rng.random() < 0.15:
                         continue
                     xs, ys = data(rng, n)
                     perm = order_of(rng, n, okind)
